@@ -24,7 +24,7 @@ class Region:
 
 
 class Result:
-    __slots__ = ("events", "kind", "details", "pos", "fields", "last_cc", "nwarn", "msgs")
+    __slots__ = ("events", "kind", "details", "pos", "fields", "last_cc", "nwarn", "msgs", "snapshot")
 
     @property
     def remaining_from(self):
@@ -42,6 +42,8 @@ class Dec:
         self.nwarn = 0
         self.fields = []  # (path, type, offset, width, value, role)
         self.msgs = []  # (kind, start offset, cc, enc) per message of a stream / frame
+        self.stack = []  # pending work of the recursive descent (engine B pairs it with the implementation's state)
+        self.snapshot = None
         self.P, self.S, self.C = V.P(), V.S(), V.C()
 
     # -- events
@@ -53,8 +55,15 @@ class Dec:
         self.nwarn += 1
 
     # -- bytes
-    def take(self, n):
+    def take(self, n, what=None):
         if self.pos + n > len(self.b):
+            # canonical description of everything the rest of the walk depends on
+            self.snapshot = (
+                tuple(tuple(tuple(sorted(x.items())) if isinstance(x, dict) else x for x in f) for f in self.stack),
+                tuple((r.path, r.limit, r.counted, r.closed) for r in self.regions if not r.closed),
+                what,
+                self.b[self.pos :],
+            )
             self.pos = len(self.b)
             raise Stop("Depleted")
         r = self.b[self.pos : self.pos + n]
@@ -71,11 +80,11 @@ class Dec:
                 tail = r.limit - r.counted
                 d = dict(cpath=r.path, limit=r.limit, counted=r.counted, violator=path, by=r.counted + w - r.limit)
                 if tail > 0:
-                    self.take(tail)
+                    self.take(tail, ("skip", r.path, tail))
                 raise Stop("Exceeded", **d)
             r.counted += w
         off = self.pos
-        raw = self.take(w)
+        raw = self.take(w, ("field", path, tn, role))
         v = int.from_bytes(raw, "big", signed=p["signed"])
         self.fields.append((path, tn, off, w, v, role))
         if not V.is_valid(tn, v):
@@ -129,8 +138,12 @@ class Dec:
 
     def array(self, tn, path, count):
         self.emit(path, "list[%s]" % tn["list"], "...")
+        fr = ["array", tn["list"], 0, count]
+        self.stack.append(fr)
         for i in range(count):
+            fr[2] = i
             self.value(tn["list"], "%s[%d]" % (path, i))
+        self.stack.pop()
 
     def struct(self, tn, path, enc=False):
         s = self.S[tn]
@@ -143,7 +156,10 @@ class Dec:
         vals = {}
         sel = dict(s.get("selectors", []))
         selectors = set(sel.values())
+        fr = ["struct", tn, bool(enc), 0, vals]
+        self.stack.append(fr)
         for i, (name, ft) in enumerate(flds):
+            fr[3] = i
             fp = path + "." + name
             if isinstance(ft, dict):
                 self.array(ft, fp, vals[flds[i - 1][0]])
@@ -155,13 +171,16 @@ class Dec:
                 v = self.value(ft, fp, role=role)
                 if ft in self.P:
                     vals[name] = v
+        self.stack.pop()
         return None
 
     def tpm2b(self, tn, path):
         s = self.S[tn]
         (sn, st), (bn, bt) = s["fields"]
         self.emit(path, tn, "...")
+        self.stack.append(["tpm2b", tn, None])
         size = self.prim(st, path + "." + sn, role="size")
+        self.stack[-1][2] = size
         r = self.open_region(path + "." + sn, size)
         if isinstance(bt, dict):
             self.array(bt, path + "." + bn, size)
@@ -170,6 +189,7 @@ class Dec:
         else:
             self.value(bt, path + "." + bn)
         self.close_region(r)
+        self.stack.pop()
 
     def union(self, tn, path, selector):
         s = self.S[tn]
@@ -187,23 +207,29 @@ class Dec:
         ft = dict((n, t) for n, t in s["fields"])[arm]
         if ft is None:
             return
+        self.stack.append(["union", tn, arm])
         if isinstance(ft, dict):
             self.array(ft, path + "." + arm, dict(s["list_size"])[arm])
-            return
-        self.value(ft, path + "." + arm)
+        else:
+            self.value(ft, path + "." + arm)
+        self.stack.pop()
 
     # -- frames
     def _sessions(self, elem, path, region):
         dec = enc = False
         self.emit(path + ".authorizationArea", "list[%s]" % elem, "...")
         i = 0
+        fr = ["sessions", elem, 0, False, False]
+        self.stack.append(fr)
         while region.counted < region.limit:
+            fr[2:] = [i, dec, enc]
             n0 = len(self.fields)
             self.struct(elem, "%s.authorizationArea[%d]" % (path, i))
             attrs = [f for f in self.fields[n0:] if f[0].endswith(".sessionAttributes")][0][4]
             dec |= bool(attrs & 0x20)
             enc |= bool(attrs & 0x40)
             i += 1
+        self.stack.pop()
         return dec, enc
 
     def command(self, path=""):
@@ -211,17 +237,23 @@ class Dec:
         self.emit(path, "Command", "...")
         creg = Region(None, None, self.pos)
         self.regions = [creg]
+        fr = ["command", None, None, False, False, "header"]
+        self.stack.append(fr)
         tag = self.prim("TPMI_ST_COMMAND_TAG", path + ".tag", role="tag")
+        fr[1] = tag
         size = self.prim("UINT32", path + ".commandSize", role="size")
         creg.path = path + ".commandSize"
         creg.limit = size
         cc = self.prim("TPM_CC", path + ".commandCode", role="cc")
         self.last_cc = cc
+        fr[2] = cc
         if cc not in V.cc_by_num():
             raise Stop("UnknownCC", path=path + ".commandCode", type="TPM_CC", value=cc, valid=V.intervals("TPM_CC"))
         c = self.C[V.cc_by_num()[cc]]
+        fr[5] = "handles"
         self.struct(c["ch"], path + ".handles")
         dec = encr = False
+        fr[5] = "auth"
         if tag == 0x8002:
             asz = self.prim("UINT32", path + ".authSize", role="size")
             self.anticipate(path + ".authSize", asz, skip=None)
@@ -229,8 +261,10 @@ class Dec:
             self.regions.append(areg)
             dec, encr = self._sessions("TPMS_AUTH_COMMAND", path, areg)
             self.close_region(areg)
+        fr[3:] = [dec, encr, "params"]
         self.struct(c["cp"], path + ".parameters", enc=dec)
         self.close_region(creg)
+        self.stack.pop()
         self.msgs.append(("Command", start, cc, encr))
         return cc, encr
 
@@ -239,16 +273,22 @@ class Dec:
         self.emit(path, "Response", "...")
         rreg = Region(None, None, self.pos)
         self.regions = [rreg]
+        fr = ["response", cc, bool(enc), None, None, "header"]
+        self.stack.append(fr)
         tag = self.prim("TPM_ST", path + ".tag", role="tag")
+        fr[3] = tag
         size = self.prim("UINT32", path + ".responseSize", role="size")
         rreg.path = path + ".responseSize"
         rreg.limit = size
         rc = self.prim("TPM_RC", path + ".responseCode", role="rc")
+        fr[4] = rc
         if rc == 0:
             if cc not in V.cc_by_num():
                 raise Stop("UnknownCC", value=cc)
             c = self.C[V.cc_by_num()[cc]]
+            fr[5] = "handles"
             self.struct(c["rh"], path + ".handles")
+            fr[5] = "params"
             preg = None
             if tag == 0x8002:
                 psz = self.prim("UINT32", path + ".parameterSize", role="size")
@@ -256,11 +296,13 @@ class Dec:
             self.struct(c["rp"], path + ".parameters", enc=bool(enc))
             if preg:
                 self.close_region(preg)
+            fr[5] = "sessions"
             if tag == 0x8002:
                 _, anyenc = self._sessions("TPMS_AUTH_RESPONSE", path, rreg)
                 if anyenc != bool(enc):
                     raise Stop("EncInconsistent")
         self.close_region(rreg)
+        self.stack.pop()
         self.msgs.append(("Response", start, cc, bool(enc)))
 
 
@@ -274,10 +316,13 @@ def decode(root, buf, cc=None, enc=None, lenient=False):
         elif root == "Response":
             d.response(cc, enc)
         elif root == "CommandResponseStream":
+            d.stack.append(["stream"])
             while d.pos < len(d.b):
+                d.stack[:] = [["stream", "command"]]
                 c, e = d.command()
                 if d.pos >= len(d.b):
                     break
+                d.stack[:] = [["stream", "response"]]
                 d.response(c, e)
         else:
             d.value(root, "")
@@ -289,4 +334,12 @@ def decode(root, buf, cc=None, enc=None, lenient=False):
             det["cc"] = d.last_cc
     res.events, res.kind, res.details, res.pos = d.ev, kind, det, d.pos
     res.fields, res.last_cc, res.nwarn, res.msgs = d.fields, d.last_cc, d.nwarn, d.msgs
+    res.snapshot = d.snapshot if kind == "Depleted" else None
+    if root == "CommandResponseStream" and kind == "Done":
+        # a stream at a message boundary: the next message's tag is pending; what follows depends on the last command
+        last = d.msgs[-1] if d.msgs else None
+        if last is None or last[0] == "Response":
+            res.snapshot = ((("stream", "command"),), (), ("field", ".tag", "TPMI_ST_COMMAND_TAG", "tag"), b"")
+        else:
+            res.snapshot = ((("stream", "response", last[2], last[3]),), (), ("field", ".tag", "TPM_ST", "tag"), b"")
     return res
